@@ -50,6 +50,34 @@ fn mk_node<S: Service>(node: &str) -> Result<Node<S>, String> {
     NodeBuilder::new().name(&name).create::<S>().map_err(rust_err)
 }
 
+
+/// open/create the service once more with a deviating requirement; `$b` is a fresh builder with the
+/// CORRECT payload type, `$other` one with a DIFFERENT payload type, `$nx` one for a service name
+/// that does not exist
+macro_rules! probe_impl {
+    ($cfg:expr, $kind:expr, $b:expr, $other:expr, $nx:expr) => {{
+        let cfg: &PsCfg = $cfg;
+        match $kind {
+            0 => $other.open().map(|f| drop(f)).map_err(rust_err),
+            1 => $b.subscriber_max_buffer_size(cfg.buf + 1).open().map(|f| drop(f)).map_err(rust_err),
+            2 => $b.max_publishers(3).open().map(|f| drop(f)).map_err(rust_err),
+            3 => $b.enable_safe_overflow(!cfg.overflow).open().map(|f| drop(f)).map_err(rust_err),
+            4 => $nx.open().map(|f| drop(f)).map_err(rust_err),
+            5 => $b.create().map(|f| drop(f)).map_err(rust_err),
+            6 => $b.max_subscribers(5).open().map(|f| drop(f)).map_err(rust_err),
+            7 => $b.subscriber_max_borrowed_samples(cfg.borrow + 1).open().map(|f| drop(f)).map_err(rust_err),
+            _ => $b.open().map(|f| drop(f)).map_err(rust_err),
+        }
+    }};
+}
+
+fn show(r: Result<(), String>) -> String {
+    match r {
+        Ok(()) => "ok".into(),
+        Err(e) => e,
+    }
+}
+
 // ------------------------------------------------------------------------------------------
 // custom (runtime type detail)
 // ------------------------------------------------------------------------------------------
@@ -60,12 +88,13 @@ struct CustomWorld<S: Service> {
     node: Option<Node<S>>,
     factory: Option<PortFactory<S, CP, CH>>,
     size: usize,
+    hdr: usize,
 }
 
 fn custom_world_s<S: Service + 'static>(cfg: &PsCfg, svc: &str, node: &str) -> Result<Box<dyn PsWorld>, String> {
     let node = mk_node::<S>(node)?;
     let td = type_detail(if cfg.dynamic { TypeVariant::Dynamic } else { TypeVariant::FixedSize }, &cfg.type_name, cfg.size, cfg.align);
-    let hd = type_detail(TypeVariant::FixedSize, "()", 0, 1);
+    let hd = type_detail(TypeVariant::FixedSize, &cfg.hdr_name, cfg.hdr_size, cfg.hdr_align);
     let name = ServiceName::new(svc).map_err(rust_err)?;
     let b = node.service_builder(&name).publish_subscribe::<CP>().user_header::<CH>();
     let b = unsafe { b.__internal_set_payload_type_details(&td).__internal_set_user_header_type_details(&hd) };
@@ -73,13 +102,13 @@ fn custom_world_s<S: Service + 'static>(cfg: &PsCfg, svc: &str, node: &str) -> R
         .subscriber_max_buffer_size(cfg.buf)
         .subscriber_max_borrowed_samples(cfg.borrow)
         .enable_safe_overflow(cfg.overflow)
-        .history_size(0)
+        .history_size(cfg.history)
         .max_publishers(2)
-        .max_subscribers(4)
+        .max_subscribers(3)
         .max_nodes(8)
         .open_or_create()
         .map_err(rust_err)?;
-    Ok(Box::new(CustomWorld::<S> { node: Some(node), factory: Some(factory), size: cfg.size }))
+    Ok(Box::new(CustomWorld::<S> { node: Some(node), factory: Some(factory), size: cfg.size, hdr: cfg.hdr_size }))
 }
 
 pub fn custom_world(cfg: &PsCfg, svc: &str, node: &str) -> Result<Box<dyn PsWorld>, String> {
@@ -98,16 +127,36 @@ impl<S: Service + 'static> PsWorld for CustomWorld<S> {
             b = b.initial_max_slice_len(cfg.slice_len);
         }
         let p = b.create().map_err(rust_err)?;
-        Ok(Box::new(CustomPub::<S> { port: Some(p), loans: Vec::new(), size: self.size }))
+        Ok(Box::new(CustomPub::<S> { port: Some(p), loans: Vec::new(), size: self.size, hdr: self.hdr }))
     }
-    fn make_sub(&self, cfg: &PsCfg) -> Result<Box<dyn SubSide>, String> {
+    fn make_sub(&self, cfg: &PsCfg, history_request: Option<usize>) -> Result<Box<dyn SubSide>, String> {
         let f = self.factory.as_ref().unwrap();
-        let s = f.subscriber_builder().buffer_size(cfg.buf).create().map_err(rust_err)?;
-        Ok(Box::new(CustomSub::<S> { port: Some(s), held: Vec::new(), size: self.size }))
+        let mut sb = f.subscriber_builder().buffer_size(cfg.buf);
+        if let Some(h) = history_request {
+            sb = sb.history_request(h);
+        }
+        let s = sb.create().map_err(rust_err)?;
+        Ok(Box::new(CustomSub::<S> { port: Some(s), held: Vec::new(), size: self.size, hdr: self.hdr }))
     }
     fn counts(&self) -> (usize, usize) {
         let f = self.factory.as_ref().unwrap();
         (f.dynamic_config().number_of_publishers(), f.dynamic_config().number_of_subscribers())
+    }
+    fn bad_sub(&self, cfg: &PsCfg) -> String {
+        show(self.factory.as_ref().unwrap().subscriber_builder().buffer_size(cfg.buf + 1).create().map(|p| drop(p)).map_err(rust_err))
+    }
+    fn probe(&self, cfg: &PsCfg, svc: &str, kind: usize) -> String {
+        let node = self.node.as_ref().unwrap();
+        let name = ServiceName::new(svc).unwrap();
+        let nx = ServiceName::new(&format!("{}_nx", svc)).unwrap();
+        let variant = if cfg.dynamic { TypeVariant::Dynamic } else { TypeVariant::FixedSize };
+        let td = type_detail(variant, &cfg.type_name, cfg.size, cfg.align);
+        let td2 = type_detail(variant, "verif_other", cfg.size * 2, cfg.align);
+        let hd = type_detail(TypeVariant::FixedSize, &cfg.hdr_name, cfg.hdr_size, cfg.hdr_align);
+        let mk = |n: &ServiceName, t: &TypeDetail| unsafe {
+            node.service_builder(n).publish_subscribe::<CP>().user_header::<CH>().__internal_set_payload_type_details(t).__internal_set_user_header_type_details(&hd)
+        };
+        show(probe_impl!(cfg, kind, mk(&name, &td), mk(&name, &td2), mk(&nx, &td)))
     }
     fn teardown(mut self: Box<Self>, node_first: bool) {
         if node_first {
@@ -124,6 +173,7 @@ struct CustomPub<S: Service> {
     port: Option<Publisher<S, CP, CH>>,
     loans: Vec<SampleMutUninit<S, [MaybeUninit<CustomPayloadMarker>], CH>>,
     size: usize,
+    hdr: usize,
 }
 
 impl<S: Service> PubSide for CustomPub<S> {
@@ -139,6 +189,10 @@ impl<S: Service> PubSide for CustomPub<S> {
         for i in 0..nb {
             unsafe { p.add(i).write(0) };
         }
+        let h = s.user_header_mut() as *mut CH as *mut u8;
+        for i in 0..self.hdr {
+            unsafe { h.add(i).write(0) };
+        }
         self.loans.push(s);
         Ok(())
     }
@@ -152,10 +206,26 @@ impl<S: Service> PubSide for CustomPub<S> {
         for i in 0..n {
             unsafe { p.add(i).write(pattern(seed, i)) };
         }
+        let h = s.user_header_mut() as *mut CH as *mut u8;
+        for i in 0..self.hdr {
+            unsafe { h.add(i).write(pattern(seed + 77, i)) };
+        }
         n
     }
     fn send(&mut self, slot: usize) -> Result<usize, String> {
         let s = self.loans.remove(slot);
+        unsafe { s.assume_init() }.send().map_err(rust_err)
+    }
+    fn send_copy(&mut self, n: usize, seed: u64) -> Result<usize, String> {
+        // the runtime type-detail API has no send_copy: loan + copy + send, a failing loan reported
+        // the way Publisher::send_copy reports it (SendError::LoanError)
+        let mut s = unsafe { self.port.as_ref().unwrap().loan_custom_payload(n) }.map_err(|e| rust_err(iceoryx2::port::SendError::LoanError(e)))?;
+        let nb = s.header().number_of_elements() as usize * self.size;
+        let p = s.payload_mut().as_mut_ptr() as *mut u8;
+        for i in 0..nb {
+            unsafe { p.add(i).write(pattern(seed, i)) };
+        }
+        // the user header is left as it is: iox2_publisher_send_copy cannot set it either
         unsafe { s.assume_init() }.send().map_err(rust_err)
     }
     fn drop_loan(&mut self, slot: usize) {
@@ -173,6 +243,7 @@ struct CustomSub<S: Service> {
     port: Option<Subscriber<S, CP, CH>>,
     held: Vec<Sample<S, CP, CH>>,
     size: usize,
+    hdr: usize,
 }
 
 impl<S: Service> SubSide for CustomSub<S> {
@@ -187,7 +258,8 @@ impl<S: Service> SubSide for CustomSub<S> {
                 let n = ne * self.size;
                 let p = s.payload().as_ptr() as *const u8;
                 let bytes = unsafe { core::slice::from_raw_parts(p, n) };
-                let d = format!("n={} len={} {}", ne, n, hex(bytes));
+                let hb = unsafe { core::slice::from_raw_parts(s.user_header() as *const CH as *const u8, self.hdr) };
+                let d = format!("n={} len={} {} hdr={}", ne, n, hex(bytes), hex(hb));
                 self.held.push(s);
                 Ok(Some(d))
             }
@@ -210,6 +282,9 @@ impl<S: Service> SubSide for CustomSub<S> {
 // ------------------------------------------------------------------------------------------
 // typed
 // ------------------------------------------------------------------------------------------
+/// a payload type no generated service uses
+type Other = i16;
+
 pub trait Pod: Copy + core::fmt::Debug + ZeroCopySend + Default + 'static {}
 impl Pod for u8 {}
 impl Pod for u32 {}
@@ -234,9 +309,9 @@ fn fixed_world<S: Service + 'static, T: Pod>(cfg: &PsCfg, svc: &str, node: &str)
         .subscriber_max_buffer_size(cfg.buf)
         .subscriber_max_borrowed_samples(cfg.borrow)
         .enable_safe_overflow(cfg.overflow)
-        .history_size(0)
+        .history_size(cfg.history)
         .max_publishers(2)
-        .max_subscribers(4)
+        .max_subscribers(3)
         .max_nodes(8)
         .open_or_create()
         .map_err(rust_err)?;
@@ -252,9 +327,9 @@ fn slice_world<S: Service + 'static, T: Pod>(cfg: &PsCfg, svc: &str, node: &str)
         .subscriber_max_buffer_size(cfg.buf)
         .subscriber_max_borrowed_samples(cfg.borrow)
         .enable_safe_overflow(cfg.overflow)
-        .history_size(0)
+        .history_size(cfg.history)
         .max_publishers(2)
-        .max_subscribers(4)
+        .max_subscribers(3)
         .max_nodes(8)
         .open_or_create()
         .map_err(rust_err)?;
@@ -289,14 +364,27 @@ impl<S: Service + 'static, T: Pod> PsWorld for FixedWorld<S, T> {
         let p = f.publisher_builder().max_loaned_samples(cfg.loans).backpressure_strategy(BackpressureStrategy::DiscardData).create().map_err(rust_err)?;
         Ok(Box::new(FixedPub::<S, T> { port: Some(p), loans: Vec::new() }))
     }
-    fn make_sub(&self, cfg: &PsCfg) -> Result<Box<dyn SubSide>, String> {
+    fn make_sub(&self, cfg: &PsCfg, history_request: Option<usize>) -> Result<Box<dyn SubSide>, String> {
         let f = self.factory.as_ref().unwrap();
-        let s = f.subscriber_builder().buffer_size(cfg.buf).create().map_err(rust_err)?;
+        let mut sb = f.subscriber_builder().buffer_size(cfg.buf);
+        if let Some(h) = history_request {
+            sb = sb.history_request(h);
+        }
+        let s = sb.create().map_err(rust_err)?;
         Ok(Box::new(FixedSub::<S, T> { port: Some(s), held: Vec::new() }))
     }
     fn counts(&self) -> (usize, usize) {
         let f = self.factory.as_ref().unwrap();
         (f.dynamic_config().number_of_publishers(), f.dynamic_config().number_of_subscribers())
+    }
+    fn bad_sub(&self, cfg: &PsCfg) -> String {
+        show(self.factory.as_ref().unwrap().subscriber_builder().buffer_size(cfg.buf + 1).create().map(|p| drop(p)).map_err(rust_err))
+    }
+    fn probe(&self, cfg: &PsCfg, svc: &str, kind: usize) -> String {
+        let node = self.node.as_ref().unwrap();
+        let name = ServiceName::new(svc).unwrap();
+        let nx = ServiceName::new(&format!("{}_nx", svc)).unwrap();
+        show(probe_impl!(cfg, kind, node.service_builder(&name).publish_subscribe::<T>(), node.service_builder(&name).publish_subscribe::<Other>(), node.service_builder(&nx).publish_subscribe::<T>()))
     }
     fn teardown(mut self: Box<Self>, node_first: bool) {
         if node_first {
@@ -321,14 +409,27 @@ impl<S: Service + 'static, T: Pod> PsWorld for SliceWorld<S, T> {
             .map_err(rust_err)?;
         Ok(Box::new(SlicePub::<S, T> { port: Some(p), loans: Vec::new() }))
     }
-    fn make_sub(&self, cfg: &PsCfg) -> Result<Box<dyn SubSide>, String> {
+    fn make_sub(&self, cfg: &PsCfg, history_request: Option<usize>) -> Result<Box<dyn SubSide>, String> {
         let f = self.factory.as_ref().unwrap();
-        let s = f.subscriber_builder().buffer_size(cfg.buf).create().map_err(rust_err)?;
+        let mut sb = f.subscriber_builder().buffer_size(cfg.buf);
+        if let Some(h) = history_request {
+            sb = sb.history_request(h);
+        }
+        let s = sb.create().map_err(rust_err)?;
         Ok(Box::new(SliceSub::<S, T> { port: Some(s), held: Vec::new() }))
     }
     fn counts(&self) -> (usize, usize) {
         let f = self.factory.as_ref().unwrap();
         (f.dynamic_config().number_of_publishers(), f.dynamic_config().number_of_subscribers())
+    }
+    fn bad_sub(&self, cfg: &PsCfg) -> String {
+        show(self.factory.as_ref().unwrap().subscriber_builder().buffer_size(cfg.buf + 1).create().map(|p| drop(p)).map_err(rust_err))
+    }
+    fn probe(&self, cfg: &PsCfg, svc: &str, kind: usize) -> String {
+        let node = self.node.as_ref().unwrap();
+        let name = ServiceName::new(svc).unwrap();
+        let nx = ServiceName::new(&format!("{}_nx", svc)).unwrap();
+        show(probe_impl!(cfg, kind, node.service_builder(&name).publish_subscribe::<[T]>(), node.service_builder(&name).publish_subscribe::<[Other]>(), node.service_builder(&nx).publish_subscribe::<[T]>()))
     }
     fn teardown(mut self: Box<Self>, node_first: bool) {
         if node_first {
@@ -373,6 +474,14 @@ impl<S: Service, T: Pod> PubSide for FixedPub<S, T> {
         let s = self.loans.remove(slot);
         unsafe { s.assume_init() }.send().map_err(rust_err)
     }
+    fn send_copy(&mut self, _n: usize, seed: u64) -> Result<usize, String> {
+        let mut v = T::default();
+        let p = &mut v as *mut T as *mut u8;
+        for i in 0..core::mem::size_of::<T>() {
+            unsafe { p.add(i).write(pattern(seed, i)) };
+        }
+        self.port.as_ref().unwrap().send_copy(v).map_err(rust_err)
+    }
     fn drop_loan(&mut self, slot: usize) {
         drop(self.loans.remove(slot));
     }
@@ -400,7 +509,7 @@ impl<S: Service, T: Pod> SubSide for FixedSub<S, T> {
                 let n = core::mem::size_of::<T>();
                 let p = s.payload() as *const T as *const u8;
                 let bytes = unsafe { core::slice::from_raw_parts(p, n) };
-                let d = format!("n={} len={} {}", s.header().number_of_elements(), n, hex(bytes));
+                let d = format!("n={} len={} {} hdr=", s.header().number_of_elements(), n, hex(bytes));
                 self.held.push(s);
                 Ok(Some(d))
             }
@@ -453,6 +562,21 @@ impl<S: Service, T: Pod> PubSide for SlicePub<S, T> {
         let s = self.loans.remove(slot);
         unsafe { s.assume_init() }.send().map_err(rust_err)
     }
+    fn send_copy(&mut self, n: usize, seed: u64) -> Result<usize, String> {
+        // no send_slice_copy in the typed API: loan_slice_uninit + write_from_fn + send, a failing
+        // loan reported the way Publisher::send_copy reports it (SendError::LoanError)
+        let s = self.port.as_ref().unwrap().loan_slice_uninit(n).map_err(|e| rust_err(iceoryx2::port::SendError::LoanError(e)))?;
+        let sz = core::mem::size_of::<T>();
+        let s = s.write_from_fn(|k| {
+            let mut v = T::default();
+            let p = &mut v as *mut T as *mut u8;
+            for i in 0..sz {
+                unsafe { p.add(i).write(pattern(seed, k * sz + i)) };
+            }
+            v
+        });
+        s.send().map_err(rust_err)
+    }
     fn drop_loan(&mut self, slot: usize) {
         drop(self.loans.remove(slot));
     }
@@ -480,7 +604,7 @@ impl<S: Service, T: Pod> SubSide for SliceSub<S, T> {
                 let pl = s.payload();
                 let n = pl.len() * core::mem::size_of::<T>();
                 let bytes = unsafe { core::slice::from_raw_parts(pl.as_ptr() as *const u8, n) };
-                let d = format!("n={} len={} {}", s.header().number_of_elements(), n, hex(bytes));
+                let d = format!("n={} len={} {} hdr=", s.header().number_of_elements(), n, hex(bytes));
                 self.held.push(s);
                 Ok(Some(d))
             }
@@ -525,7 +649,7 @@ fn leftovers_s<S: Service>(cfg: &PsCfg, svc: &str, node_names: &[&str]) -> (usiz
     let rec = (|| -> Result<(), String> {
         let node = mk_node::<S>(&format!("{}_x", svc))?;
         let td = type_detail(if cfg.dynamic { TypeVariant::Dynamic } else { TypeVariant::FixedSize }, &cfg.type_name, cfg.size, cfg.align);
-        let hd = type_detail(TypeVariant::FixedSize, "()", 0, 1);
+        let hd = type_detail(TypeVariant::FixedSize, &cfg.hdr_name, cfg.hdr_size, cfg.hdr_align);
         let name = ServiceName::new(svc).map_err(rust_err)?;
         let b = node.service_builder(&name).publish_subscribe::<CP>().user_header::<CH>();
         let b = unsafe { b.__internal_set_payload_type_details(&td).__internal_set_user_header_type_details(&hd) };
